@@ -68,7 +68,7 @@ Proof.
   rewrite E1, E2. simpl. apply Permutation_refl.
 Qed.
 
-Lemma conserved_step m cs0 s s' : conserved cs0 s -> wstep m s s' -> conserved cs0 s'.
+Lemma conserved_step dm sm cs0 s s' : conserved cs0 s -> wstep dm sm s s' -> conserved cs0 s'.
 Proof.
   intros Hc Hst. unfold conserved in *.
   inversion Hst; subst; cbn [rp chunks wks rch wch stopped stored own_of] in *.
@@ -149,7 +149,7 @@ Proof. intros E. rewrite !forallb_app. simpl. rewrite E. reflexivity. Qed.
 Lemma Forall_mid (P : wk -> Prop) l1 w w' l2 : Forall P (l1 ++ w :: l2) -> P w' -> Forall P (l1 ++ w' :: l2).
 Proof. intros H Hw. apply Forall_app in H as [Ha Hb]. inversion Hb; subst. apply Forall_app; split; auto. Qed.
 
-Lemma Wf_step m s s' : Wf s -> wstep m s s' -> Wf s'.
+Lemma Wf_step dm sm s s' : Wf s -> wstep dm sm s s' -> Wf s'.
 Proof.
   intros (H1 & H2 & H3 & H4 & H5 & H6) Hst. unfold Wf in *.
   inversion Hst; subst; cbn [rp chunks wks rch wch stopped stored past_chunks past_bar stop_sent] in *.
@@ -186,7 +186,7 @@ Proof.
   - repeat split; try discriminate; auto.
 Qed.
 
-Lemma Wf_reach m (cs : list chunk) k (s : wst) : wreach m (winit cs k) s -> Wf s /\ conserved cs s.
+Lemma Wf_reach dm sm (cs : list chunk) k (s : wst) : wreach dm sm (winit cs k) s -> Wf s /\ conserved cs s.
 Proof.
   induction 1 as [|s s' _ [IH1 IH2] Hst].
   - split; [apply Wf_init | apply conserved_init].
@@ -201,8 +201,8 @@ Proof.
 Qed.
 
 (* once the writer has stopped, everything that is not stored is an unreceived dictionary *)
-Lemma stopped_rest m (cs : list chunk) k (s : wst) :
-  wreach m (winit cs k) s -> stopped s = true -> Permutation (all_recs cs) (stored s ++ unreceived s).
+Lemma stopped_rest dm sm (cs : list chunk) k (s : wst) :
+  wreach dm sm (winit cs k) s -> stopped s = true -> Permutation (all_recs cs) (stored s ++ unreceived s).
 Proof.
   intros Hr Hs. destruct (Wf_reach Hr) as [(H1 & H2 & H3 & H4 & H5 & H6) Hc].
   specialize (H5 Hs). unfold conserved in Hc. unfold unreceived.
@@ -213,18 +213,24 @@ Proof.
   rewrite Ho in Hc. simpl in Hc. rewrite app_nil_r in Hc. rewrite app_assoc in Hc. rewrite <- app_assoc in Hc. exact Hc.
 Qed.
 
-(* ---- synchronous sends: channels stay empty ---- *)
-Definition SyncI (s : wst) : Prop := rch s = [] /\ Forall (fun q : list payload => q = []) (wch s).
+(* ---- synchronous dictionary sends (the repaired code): no dictionary is ever queued ---- *)
+Definition SyncI (s : wst) : Prop := dicts (rch s) = [] /\ Forall (fun q : list payload => q = []) (wch s).
 
-Lemma SyncI_step s s' : SyncI s -> wstep Sync s s' -> SyncI s'.
+Lemma SyncI_step sm s s' : SyncI s -> wstep Sync sm s s' -> SyncI s'.
 Proof.
   intros [Hr Hw] Hst. unfold SyncI in *.
   inversion Hst; subst; cbn [rp chunks wks rch wch stopped stored] in *; try discriminate; auto.
-  exfalso. eapply Forall_forall in Hw; [|eapply nth_error_In; eauto]. discriminate.
+  - (* the sentinel is appended eagerly: it carries no records *)
+    split; auto. rewrite dicts_app, Hr. reflexivity.
+  - cbn [dicts flat_map] in Hr. apply app_eq_nil in Hr as [_ Hr]. split; auto.
+  - exfalso. eapply Forall_forall in Hw; [|eapply nth_error_In; eauto]. discriminate.
 Qed.
 
-Theorem write_sync_no_loss (cs : list chunk) k (s : wst) :
-  wreach Sync (winit cs k) s -> stopped s = true ->
+(* the repaired write pipeline: dictionaries sent with ssend, the sentinel (and the scatter)
+   with any send mode, ANY number k of further sending ranks, every schedule: when the writer
+   stops it has stored every record and nothing is left unreceived *)
+Theorem write_ssend_no_loss sm (cs : list chunk) k (s : wst) :
+  wreach Sync sm (winit cs k) s -> stopped s = true ->
   Permutation (all_recs cs) (stored s) /\ unreceived s = [].
 Proof.
   intros Hr Hs.
@@ -237,6 +243,12 @@ Proof.
   rewrite E, app_nil_r in Hp. auto.
 Qed.
 
+(* all sends synchronous: a special case *)
+Theorem write_sync_no_loss (cs : list chunk) k (s : wst) :
+  wreach Sync Sync (winit cs k) s -> stopped s = true ->
+  Permutation (all_recs cs) (stored s) /\ unreceived s = [].
+Proof. apply write_ssend_no_loss. Qed.
+
 (* ---- eager sends, a single sending rank (max_workers = 2: the reader is the only sender) ---- *)
 Definition Single (s : wst) : Prop :=
   wks s = [] /\ wch s = []
@@ -246,11 +258,11 @@ Definition Single (s : wst) : Prop :=
 Lemma nth_error_nil_none B j (x : B) : nth_error (@nil B) j = Some x -> False.
 Proof. destruct j; discriminate. Qed.
 
-Lemma Single_step m s s' : Wf s -> Single s -> wstep m s s' -> Single s'.
+Lemma Single_step sm s s' : Wf s -> Single s -> wstep Eager sm s s' -> Single s'.
 Proof.
   intros (H1 & H2 & H3 & H4 & H5 & H6) (Hk & Hc & Hs & Ht) Hst. unfold Single in *.
   inversion Hst; subst; cbn [rp chunks wks rch wch stopped stored stop_sent] in *; subst;
-    try (exfalso; eapply nth_error_nil_none; eassumption).
+    try discriminate; try (exfalso; eapply nth_error_nil_none; eassumption).
   - rewrite deliver_nil. repeat split; auto.
   - (* the reader appends a dictionary: the sentinel has not been sent *)
     repeat split; auto.
@@ -260,15 +272,15 @@ Proof.
     + intros Hst'. specialize (H5 Hst'). discriminate.
   - repeat split; auto.
   - repeat split; auto.
-  - repeat split; auto.
   - (* the reader appends the sentinel: none was there *)
     repeat split; auto.
-    + intros a b E. destruct b as [|x b] using rev_ind; auto. exfalso.
+    + intros a b E. destruct b as [|x b _] using rev_ind; auto. exfalso.
       rewrite app_comm_cons, app_assoc in E. apply app_inj_tail in E as [E _].
       assert (Hin : In Stop rc) by (rewrite E; apply in_or_app; right; left; reflexivity).
       specialize (H6 Hin). discriminate.
     + intros Hst'. specialize (H5 Hst'). discriminate.
-  - repeat split; auto. discriminate.
+  - (* synchronous sentinel: only when nothing older of the reader is queued *)
+    repeat split; auto; intros a b E; destruct a; discriminate.
   - repeat split; auto.
     + intros a b E. apply (Hs (Dict d :: a) b). rewrite E. reflexivity.
     + discriminate.
@@ -278,8 +290,8 @@ Proof.
   - repeat split; auto.
 Qed.
 
-Theorem write_eager_single_sender_no_loss (cs : list chunk) (s : wst) :
-  wreach Eager (winit cs 0) s -> stopped s = true ->
+Theorem write_eager_single_sender_no_loss sm (cs : list chunk) (s : wst) :
+  wreach Eager sm (winit cs 0) s -> stopped s = true ->
   Permutation (all_recs cs) (stored s) /\ unreceived s = [].
 Proof.
   intros Hr Hs.
@@ -299,7 +311,7 @@ Ltac dmw :=
   | H : context [match ?x with _ => _ end] |- _ => destruct x eqn:?; try discriminate
   end.
 
-Lemma wstep_with_sound c (s s' : wst) : wstep_with c s = Some s' -> wstep Eager s s'.
+Lemma wstep_with_sound c (s s' : wst) : wstep_with c s = Some s' -> wstep Eager Eager s s'.
 Proof.
   destruct s as [p cs l rc wc st sd]. unfold wstep_with; cbn [rp chunks wks rch wch stopped stored]. intros H.
   destruct c; repeat dmw; injection H as <-; subst;
@@ -317,13 +329,13 @@ Proof.
   - apply w_final.
 Qed.
 
-Lemma wrun_sound cs (s s' : wst) : wrun cs s = Some s' -> wreach Eager s s'.
+Lemma wrun_sound cs (s s' : wst) : wrun cs s = Some s' -> wreach Eager Eager s s'.
 Proof.
   revert s. induction cs as [|c cs IH]; simpl; intros s H.
   - injection H as <-. constructor.
   - destruct (wstep_with c s) as [s1|] eqn:E; [|discriminate].
     specialize (IH s1 H). clear H.
-    induction IH; [eapply wreach_step; [apply wreach_refl|apply wstep_with_sound; exact E]|eapply wreach_step; eauto].
+    induction IH; [eapply wreach_step; [apply wreach_refl|eapply wstep_with_sound; exact E]|eapply wreach_step; eauto].
 Qed.
 
 End MpiWriteP.
@@ -331,7 +343,7 @@ End MpiWriteP.
 (* ---- F13b: eager sends, two sending ranks: the sentinel overtakes ---- *)
 Theorem write_eager_overtake_refuted :
   exists s : wst nat,
-    wreach Eager (winit f13b_chunks 1) s /\ rp s = WDone /\ stopped s = true /\
+    wreach Eager Eager (winit f13b_chunks 1) s /\ rp s = WDone /\ stopped s = true /\
     wch s = [[Dict [2]]] /\ stored s = [1] /\
     ~ Permutation (all_recs f13b_chunks) (stored s).
 Proof.
